@@ -1,10 +1,17 @@
 ----------------------------- MODULE TopoSortMC -----------------------------
 (***************************************************************************)
 (* Enumeration (or random generation, with -simulate) of TopoSort          *)
-(* instances.  An instance is built stepwise - shape, then the inputs of   *)
-(* node 1, 2, ... - so that the work is spread over TLC's workers; the     *)
-(* step Sort then evaluates the algorithm for every start graph and keeps  *)
-(* the results in the state, on which the theorems are invariants.         *)
+(* instances.  An instance is built stepwise so that the work is spread    *)
+(* over TLC's workers and, under -simulate, a random walk is a random      *)
+(* instance:                                                               *)
+(*   Random = FALSE: Init picks a shape of TopoSortGen!Shapes, Choose      *)
+(*     picks the inputs of node 1, 2, ... (exhaustive enumeration);        *)
+(*   Random = TRUE : Init picks the numbers of nodes and graphs, Grow      *)
+(*     assigns the nodes to graphs, Owners picks the owners of the nested  *)
+(*     graphs, Place builds a permutation of the nodes (the initial        *)
+(*     orders), Choose picks the inputs.                                   *)
+(* The step Sort then evaluates the algorithm for every start graph and    *)
+(* keeps the results in the state, on which the theorems are invariants.   *)
 (* Sort prints   [gOf, owner, order, ins, res]   (res[r] = the orders of   *)
 (* all graphs after sorting graph r, or 0 when a cycle is reported) as     *)
 (* one JSON line; the harness rebuilds the instance with real onnx_ir      *)
@@ -13,53 +20,101 @@
 EXTENDS TopoSortGen, TLC, Json
 
 CONSTANTS AllRoots,   \* TRUE: sort from every graph of the forest, FALSE: only from graph 1
-          CheckRef,   \* TRUE: also check the reference characterisations (small scope)
+          Random,
           EmitOn
 
-VARIABLES inst, k, done, res
-vars == <<inst, k, done, res>>
+VARIABLES inst, phase, perm, k, done, res, fails
+vars == <<inst, phase, perm, k, done, res, fails>>
 
 Roots(I) == IF AllRoots THEN GraphsOf(I) ELSE {1}
 
-Init == /\ inst \in Shapes
-        /\ k = 0
+Init == /\ IF Random
+           THEN /\ k \in MinN..MaxN             \* the number of nodes, until phase "ins"
+                /\ \E ng \in 1..MaxG :
+                     /\ k = 0 => ng = 1
+                     /\ inst = [gOf |-> <<>>, owner |-> [g \in 1..ng |-> 0],
+                                order |-> [g \in 1..ng |-> <<>>], ins |-> <<>>]
+                /\ phase = "grow"
+           ELSE /\ inst \in Shapes
+                /\ k = 0
+                /\ phase = "ins"
+        /\ perm = <<>>
         /\ done = FALSE
         /\ res = <<>>
+        /\ fails = <<>>
 
-Choose == /\ k < Len(inst.gOf)
+\* node Len(gOf)+1 goes to some graph (node 1 to the outermost graph, which may not stay empty)
+Grow == /\ phase = "grow"
+        /\ IF Len(inst.gOf) < k
+           THEN /\ \E g \in GraphsOf(inst) :
+                     inst' = [inst EXCEPT !.gOf = Append(@, IF Len(inst.gOf) = 0 THEN 1 ELSE g)]
+                /\ phase' = phase
+           ELSE /\ phase' = "owners"
+                /\ inst' = inst
+        /\ UNCHANGED <<perm, k, done, res, fails>>
+
+Owners == /\ phase = "owners"
+          /\ \E o \in OwnersFor(k, Len(inst.owner)) :
+               LET J == [inst EXCEPT !.owner = o] IN
+               /\ \A g \in 2..Len(o) : J.gOf[o[g]] # g /\ GDepth(J, g) <= MaxDepth
+               /\ inst' = [J EXCEPT !.ins = [i \in 1..k |-> <<>>]]
+          /\ phase' = "place"
+          /\ UNCHANGED <<perm, k, done, res, fails>>
+
+Place == /\ phase = "place"
+         /\ IF Len(perm) = Len(inst.gOf)
+            THEN /\ inst' = [inst EXCEPT !.order = [g \in GraphsOf(inst) |->
+                                                      SelectSeq(perm, LAMBDA x : inst.gOf[x] = g)]]
+                 /\ phase' = "ins"
+                 /\ k' = 0
+                 /\ perm' = perm
+            ELSE /\ \E x \in NodesOf(inst) \ TsRange(perm) : perm' = Append(perm, x)
+                 /\ UNCHANGED <<inst, phase, k>>
+         /\ UNCHANGED <<done, res, fails>>
+
+Choose == /\ phase = "ins"
+          /\ k < Len(inst.gOf)
           /\ \E s \in InSeqs(inst, k + 1) : inst' = [inst EXCEPT !.ins[k + 1] = s]
           /\ k' = k + 1
-          /\ UNCHANGED <<done, res>>
+          /\ UNCHANGED <<phase, perm, done, res, fails>>
 
 Out(R) == IF R.ok THEN R.order ELSE 0
 
-Sort == /\ k = Len(inst.gOf)
+\* res[r]   = SortedAt(inst, r)
+\* fails[r] = the clauses of the property that res[r] does not satisfy (must be none)
+Sort == /\ phase = "ins"
+        /\ k = Len(inst.gOf)
         /\ ~done
         /\ res' = [r \in Roots(inst) |-> SortedAt(inst, r)]
+        /\ LET A == Analysis(inst)
+           IN fails' = [r \in Roots(inst) |->
+                          FailedA(inst, A, r, res'[r])
+                          \o (IF res'[r].ok <=> ~CyclicA(inst, A, r) THEN <<>> ELSE <<"CycleExact">>)]
         /\ done' = TRUE
         /\ EmitOn => PrintT(ToJson(<<inst.gOf, inst.owner, inst.order, inst.ins,
                                      [r \in Roots(inst) |-> Out(res'[r])]>>))
-        /\ UNCHANGED <<inst, k>>
+        /\ UNCHANGED <<inst, phase, perm, k>>
 
-Next == Choose \/ Sort
+Next == Grow \/ Owners \/ Place \/ Choose \/ Sort
 Spec == Init /\ [][Next]_vars
 
 \* ---- theorems about the algorithm, for every instance and every start graph ------------
-InvWellFormed  == WellFormed(inst)
-InvTopo        == done => \A r \in Roots(inst) : PTopo(inst, r, res[r])
-InvOwnNodes    == done => \A r \in Roots(inst) : POwnNodes(inst, r, res[r])
-InvStable      == done => \A r \in Roots(inst) : PStable(inst, r, res[r])
-InvCycleAtomic == done => \A r \in Roots(inst) : PCycleAtomic(inst, r, res[r])
-\* the algorithm reports a cycle exactly when the dependencies are cyclic, and never touches a
-\* graph outside the subtree it was started on
-InvCycleExact  == done => \A r \in Roots(inst) :
-                            /\ res[r].ok <=> ~Cyclic(inst, r)
-                            /\ \A g \in GraphsOf(inst) \ Scope(inst, r) : res[r].order[g] = inst.order[g]
+Failed(c) == \E r \in DOMAIN fails : c \in TsRange(fails[r])
+InvWellFormed  == phase = "ins" => WellFormed(inst)
+InvTopo        == ~Failed("Topo")
+InvOwnNodes    == ~Failed("OwnNodes")
+InvStable      == ~Failed("Stable")
+InvCycleAtomic == ~Failed("CycleAtomic")
+\* the algorithm reports a cycle exactly when the dependencies are cyclic ...
+InvCycleExact  == ~Failed("CycleExact")
+\* ... and never touches a graph outside the subtree it was started on
+InvScope       == done => \A r \in Roots(inst) :
+                            \A g \in GraphsOf(inst) \ Scope(inst, r) : res[r].order[g] = inst.order[g]
 \* sorting twice changes nothing the second time (consequence of Topo + Stable)
 InvIdempotent  == done => \A r \in Roots(inst) :
                             res[r].ok => SortedAt([inst EXCEPT !.order = res[r].order], r) = res[r]
 \* reference characterisations
-InvRefGlobal   == (done /\ CheckRef) => \A r \in Roots(inst) : RefGlobal(inst, r) = res[r]
-InvRefPerGraph == (done /\ CheckRef) => \A r \in Roots(inst) : RefPerGraph(inst, r) = res[r]
-InvCyclicDef   == (done /\ CheckRef) => \A r \in Roots(inst) : Cyclic(inst, r) <=> ~HasTopoOrder(inst, r)
+InvRefGlobal   == done => \A r \in Roots(inst) : RefGlobal(inst, r) = res[r]
+InvRefPerGraph == done => \A r \in Roots(inst) : RefPerGraph(inst, r) = res[r]
+InvCyclicDef   == done => \A r \in Roots(inst) : Cyclic(inst, r) <=> ~HasTopoOrder(inst, r)
 =============================================================================
